@@ -2245,3 +2245,132 @@ def parseDimGen (expression : List Char) : Except ParseErr DimExpr :=
 end Dltype.Gen
 """
     return out
+
+
+# =====================================================================================================================
+# DLTypeAnnotation.from_hint  ->  Generated/HintLoop.lean
+# =====================================================================================================================
+#
+# The hint is the model's `Hint` (what `get_origin` / `get_args` / `isinstance` / `.mro()` say about it): `hint is None` ↦ `.none`,
+# `origin is Union` ↦ `.union args`, `origin is tuple` ↦ `.tuple args`, `origin is not Annotated` ↦ `.plain`,
+# `Annotated[base, meta]` ↦ `.annotated baseOk ann` (ann = the metadata when it is a TensorTypeBase, baseOk = a supported array
+# type is in the base's mro).  The branches are read in source order; what each returns / raises, the comparison of the union
+# branch, the `optional=` of the recursive calls and the `_TupleHint` wrapper are taken from the statements.
+
+def gen_hints(lib_dir: str, header: str) -> str:
+    with open(os.path.join(lib_dir, "_core.py")) as fh:
+        mod = ast.parse(fh.read(), filename="_core.py")
+    f = _find_method(mod, "DLTypeAnnotation", "from_hint")
+    if _src(f.args) != "cls, hint: type | None, name: str, *, optional: bool=False":
+        raise TErr(f"from_hint: parameters `{_src(f.args)}`")
+    b = [s for s in _strip(f.body) if not (isinstance(s, ast.Expr) and isinstance(s.value, ast.Call) and _src(s.value.func).startswith("_logger."))]
+
+    def ret_none_tuple(stmts) -> bool:
+        inner = [x for x in stmts if not (isinstance(x, ast.Expr) and isinstance(x.value, ast.Call) and _src(x.value.func) in ("warnings.warn",) or
+                                          (isinstance(x, ast.Expr) and isinstance(x.value, ast.Call) and _src(x.value.func).startswith("_logger.")))]
+        return len(inner) == 1 and _src(inner[0]) == "return (None,)"
+
+    def raises_type_error(stmts) -> bool:
+        inner = [x for x in stmts if not (isinstance(x, ast.Assign) and isinstance(x.value, (ast.Constant, ast.JoinedStr)))]
+        return len(inner) == 1 and isinstance(inner[0], ast.Raise) and _src(inner[0].exc) == "TypeError(msg)"
+
+    want_order = ["hint is None", "ASSIGN n_expected_args = len(cls._fields)", "ASSIGN origin = get_origin(hint)", "ASSIGN args = get_args(hint)", "origin is Union", "origin is tuple",
+                  "origin is not Annotated", "len(args) < n_expected_args or not isinstance(args[1], _tensor_type_base.TensorTypeBase)",
+                  "ASSIGN tensor_type, dltype_hint = (_tensor_type_base.unwrap_type_alias(args[0]), args[1])",
+                  "not any((T in tensor_type.mro() for T in _dtypes.SUPPORTED_TENSOR_TYPES))", "dltype_hint.optional != optional", "RETURN"]
+    got = []
+    for s in b:
+        if isinstance(s, ast.If):
+            got.append(_src(s.test))
+        elif isinstance(s, ast.Assign):
+            got.append("ASSIGN " + _src(s))
+        elif isinstance(s, ast.Return):
+            got.append("RETURN")
+        else:
+            got.append(_src(s)[:60])
+    if got != want_order:
+        k = next((i for i, (x, y) in enumerate(zip(got, want_order)) if x != y), min(len(got), len(want_order)))
+        raise TErr(f"from_hint: statement {k}: `{got[k] if k < len(got) else '<missing>'}` (expected `{want_order[k] if k < len(want_order) else '<nothing>'}`)")
+    ifs = [s for s in b if isinstance(s, ast.If)]
+    none_b, union_b, tuple_b, notann_b, meta_b, base_b, opt_b = ifs
+    if any(x.orelse for x in ifs):
+        raise TErr("from_hint: an `else` branch")
+    if not (ret_none_tuple(none_b.body) and ret_none_tuple(notann_b.body) and ret_none_tuple(meta_b.body) and raises_type_error(base_b.body)):
+        raise TErr("from_hint: the None / not-Annotated / metadata branches must return `(None,)`, the base-type branch must raise TypeError")
+    # union
+    ub = union_b.body
+    if not (len(ub) == 3 and _src(ub[0]) == "non_none_types = [t for t in args if t not in {type(None), None}]" and isinstance(ub[1], ast.If) and not ub[1].orelse
+            and isinstance(ub[1].test, ast.Compare) and _src(ub[1].test.left) == "len(non_none_types)" and len(ub[1].test.ops) == 1
+            and isinstance(ub[1].test.comparators[0], ast.Constant) and raises_type_error(ub[1].body)
+            and isinstance(ub[2], ast.Return) and isinstance(ub[2].value, ast.Call) and _src(ub[2].value.func) == "cls.from_hint"
+            and [_src(a) for a in ub[2].value.args] == ["non_none_types[0]", "name"]):
+        raise TErr("from_hint: the Union branch: " + " ; ".join(_src(x)[:80] for x in ub))
+    usym = {ast.NotEq: "≠", ast.Eq: "=", ast.Gt: ">", ast.Lt: "<", ast.GtE: "≥", ast.LtE: "≤"}.get(type(ub[1].test.ops[0]))
+    uconst = ub[1].test.comparators[0].value
+    kw = {k.arg: k.value for k in ub[2].value.keywords}
+    if set(kw) - {"optional"} or usym is None:
+        raise TErr("from_hint: the recursive call of the Union branch")
+    rec_opt = _src(kw["optional"]) if "optional" in kw else "False"
+    if rec_opt not in ("True", "False", "optional"):
+        raise TErr(f"from_hint: optional={rec_opt} in the Union branch")
+    rec_opt_l = {"True": "true", "False": "false", "optional": "optional"}[rec_opt]
+    # tuple
+    tb = tuple_b.body
+    if not (len(tb) == 1 and isinstance(tb[0], ast.Return)):
+        raise TErr("from_hint: the tuple branch")
+    tv = tb[0].value
+    wrapped = isinstance(tv, ast.Call) and _src(tv.func) == "_TupleHint" and len(tv.args) == 1
+    inner = tv.args[0] if wrapped else tv
+    if isinstance(inner, ast.Call) and _src(inner.func) == "tuple" and len(inner.args) == 1:
+        inner = inner.args[0]
+    if not (isinstance(inner, ast.Call) and _src(inner.func) == "itertools.chain" and len(inner.args) == 1 and isinstance(inner.args[0], ast.Starred)
+            and isinstance(inner.args[0].value, ast.ListComp) and len(inner.args[0].value.generators) == 1 and _src(inner.args[0].value.generators[0].iter) == "args"
+            and not inner.args[0].value.generators[0].ifs and isinstance(inner.args[0].value.elt, ast.Call) and _src(inner.args[0].value.elt.func) == "cls.from_hint"):
+        raise TErr(f"from_hint: the tuple branch returns `{_src(tv)[:120]}`")
+    ecall = inner.args[0].value.elt
+    if [_src(a) for a in ecall.args] != [_src(inner.args[0].value.generators[0].target), "name"]:
+        raise TErr("from_hint: the element call of the tuple branch")
+    ekw = {k.arg: _src(k.value) for k in ecall.keywords}
+    if set(ekw) - {"optional"} or ekw.get("optional", "False") not in ("True", "False", "optional"):
+        raise TErr("from_hint: optional= in the tuple branch")
+    elem_opt = {"True": "true", "False": "false", "optional": "optional"}[ekw.get("optional", "False")]
+    # optional flag
+    if [_src(x) for x in opt_b.body] != ["dltype_hint = copy.copy(dltype_hint)", "dltype_hint.optional = optional"]:
+        raise TErr("from_hint: the optional flag is not set on a copy: " + " ; ".join(_src(x) for x in opt_b.body))
+    if _src(b[-1]) != "return (cls(tensor_type_hint=tensor_type, dltype_annotation=dltype_hint),)":
+        raise TErr(f"from_hint: `{_src(b[-1])}`")
+
+    out = header
+    out += "import DltypeModel.Hints\nset_option linter.unusedVariables false\nnamespace Dltype.Gen\nopen Dltype\n\n"
+    out += f"""mutual
+/-- `DLTypeAnnotation.from_hint(hint, name, optional=...)` -/
+def fromHint : Hint → Bool → Except DecorErr HintAnns
+  | .none, optional => .ok ⟨false, [none]⟩
+  | .plain, optional => .ok ⟨false, [none]⟩
+  | .union alts, optional => unionGo alts 0 none optional
+  | .tuple elems, optional => (fromHints elems optional).map (fun l => ⟨{'true' if wrapped else 'false'}, l⟩)
+  | .annotated _ none, optional => .ok ⟨false, [none]⟩
+  | .annotated baseOk (some a), optional =>
+    if !baseOk then .error .typeError else .ok ⟨false, [some {{ a with optional := optional }}]⟩
+/-- the Union branch: `non_none_types`, the test on their number, the recursive call on the first of them (written as one
+    traversal so that the recursion is structural: count the non-None alternatives, remember the result for the first) -/
+def unionGo : List Hint → Nat → Option (Except DecorErr HintAnns) → Bool → Except DecorErr HintAnns
+  | [], n, acc, _ => if decide (n {usym} {uconst}) then .error .typeError else (match acc with | some r => r | none => .error .typeError)
+  | h :: rest, n, acc, optional =>
+    if h.isNone then unionGo rest n acc optional
+    else unionGo rest (n + 1) (match acc with | some r => some r | none => some (fromHint h {rec_opt_l})) optional
+/-- the tuple branch: `itertools.chain(*[cls.from_hint(inner_hint, name) for inner_hint in args])` -/
+def fromHints : List Hint → Bool → Except DecorErr (List (Option Ann))
+  | [], _ => .ok []
+  | h :: hs, optional =>
+    match fromHint h {elem_opt} with
+    | .error e => .error e
+    | .ok xs =>
+      match fromHints hs optional with
+      | .error e => .error e
+      | .ok ys => .ok (xs.anns ++ ys)
+end
+
+end Dltype.Gen
+"""
+    return out
